@@ -434,12 +434,21 @@ fn run_model<K: TestKey>(p: &Params, case: u64, rep: &mut Report) {
                 rep.count("reopens_without_replay", 1);
             }
         }
-        if !findings.is_empty() {
+        // Stop at the first finding that concerns the property this run is about. Findings of
+        // other properties do not end the history: an early symptom under one property must not
+        // hide the later symptom of the same defect under another (each check reads only its own).
+        let focus = focus_static(&p.focus);
+        if findings.iter().any(|f| f.props.contains(&focus)) || findings.len() > 30 {
             break;
         }
     }
     sess.close();
     fsx::rm_rf(&root);
+    // one witness per (kind, site) is enough
+    {
+        let mut seen = std::collections::BTreeSet::new();
+        findings.retain(|f| seen.insert((f.kind.clone(), f.site.clone())));
+    }
 
     rep.evaluations += 1;
     rep.count("steps", history.len() as u64);
